@@ -83,8 +83,10 @@ func (s *Solver) close() {
 }
 
 // feasible reports whether g is satisfiable together with the assumptions so far (unknown => true).
-func (s *Solver) feasible(ex *Exec, g *T) bool {
-	if g == TT {
+func (s *Solver) feasible(ex *Exec, g *T) bool { return s.feasible0(ex, g, false) }
+
+func (s *Solver) feasible0(ex *Exec, g *T, force bool) bool {
+	if g == TT && !force {
 		return true
 	}
 	if g == FF {
@@ -93,13 +95,13 @@ func (s *Solver) feasible(ex *Exec, g *T) bool {
 	if s.dead {
 		return true
 	}
-	if r, ok := s.cache[g]; ok {
+	if r, ok := s.cache[g]; ok && !force {
 		if !r {
 			return false // unsat stays unsat: assumptions only grow
 		}
 		return true
 	}
-	if s.modelHit(ex, g) {
+	if !force && s.modelHit(ex, g) {
 		s.hits++
 		s.cache[g] = true
 		return true
@@ -506,3 +508,27 @@ func runBatch(solver, file string, timeout time.Duration, n int) []batchAns {
 	}
 	return ans
 }
+
+// lastModelFor returns an evaluator for a cached model that satisfies all assumptions and g.
+func (s *Solver) lastModelFor(ex *Exec, g *T) *evaluator {
+	for pass := 0; pass < 2; pass++ {
+		for i := len(s.models) - 1; i >= 0; i-- {
+			m := s.models[i]
+			for m.ok && m.nass < len(ex.assumes) {
+				if !m.ev.b(ex.assumes[m.nass]) {
+					m.ok = false
+				}
+				m.nass++
+			}
+			if m.ok && m.ev.b(g) {
+				return m.ev
+			}
+		}
+		// no cached model: force a solver call that caches one
+		if !s.feasible0(ex, g, true) {
+			return nil
+		}
+	}
+	return nil
+}
+
